@@ -36,10 +36,27 @@ def _atom(e):
     s = e.strip()
     if s.k == "call" and s.x["path"].endswith(A("entries_fits")):
         return "fits", neg, s
-    if s.k == "call" and s.x["path"].endswith(A("sorter_threshold")):
-        return "exceeded", neg, s
+    ex = _exceeded(s)
+    if ex is not None:
+        return "exceeded", neg ^ ex, s
     if is_self_field(s, "allow_realloc"):
         return "allow", neg, s
+    return None
+
+
+def _exceeded(s):
+    """the budget comparison (threshold_exceeded, spliced into Sorter::insert when it is a function of its own):
+    `self.entries.memory_usage() >= self.dump_threshold` in any of its four spellings; returns False for the
+    relation itself, True for its negation (`usage < threshold`), None for anything else (`>` / `<=` are off by one)"""
+    if s.k != "bin" or s.x["op"] not in ("Ge", "Lt", "Le", "Gt"):
+        return None
+    x, y = s.a
+    mu = lambda e: is_call(e, A("entries_memory")) and is_self_field(e.strip().a[0], "entries")
+    th = lambda e: is_self_field(e, "dump_threshold")
+    if mu(x) and th(y) and s.x["op"] in ("Ge", "Lt"):
+        return s.x["op"] == "Lt"
+    if th(x) and mu(y) and s.x["op"] in ("Le", "Gt"):
+        return s.x["op"] == "Gt"
     return None
 
 
@@ -153,12 +170,15 @@ def r1_spill_table(ck, F, R="C08-R1"):
 
 
 def r2_threshold(ck, F, R="C08-R2"):
-    te = F.body(A("sorter_threshold"))
-    e = te.expr_at_return()
-    ok = e.k == "bin" and e.x["op"] == "Ge" and is_call(e.a[0], A("entries_memory")) and is_self_field(e.a[0].strip().a[0], "entries") and is_self_field(e.a[1], "dump_threshold")
-    if not ok and e.k == "bin" and e.x["op"] == "Le":
-        ok = is_call(e.a[1], A("entries_memory")) and is_self_field(e.a[0], "dump_threshold")
-    ck.ob(R, "exceeded-relation", ok, f"threshold_exceeded = {e.show()} (expected memory_usage() >= dump_threshold)", te)
+    te = F.body(A("sorter_insert"))
+    atoms = []
+    for bb in sorted(te.normal_blocks()):
+        t = te.term(bb)
+        if t["t"] == "switch":
+            at = _atom(te.expr_of_operand(t["discr"], Site(bb, None)))
+            if at and at[0] == "exceeded":
+                atoms.append(at[2])
+    ck.ob(R, "exceeded-relation", len(atoms) == 1, f"Sorter::insert compares the budget once: {[a.show()[:80] for a in atoms]} (expected memory_usage() >= dump_threshold, or its negation `<`)", te)
     mu = F.body(A("entries_memory"))
     e = mu.expr_at_return()
     ck.ob(R, "memory-usage-is-capacity", is_call(e, "::len") and is_self_field(e.strip().a[0], "buffer"), f"memory_usage = {e.show()} (the buffer's allocated length)", mu)
